@@ -283,7 +283,8 @@ func unpackOneRepo(
 	// Cleanup dir times with a post-order traversal over the bucket.
 	//  Files and dirs placed inside dirs cause the parent's mtime to update, so we have to re-pave them.
 	for i := len(dirs) - 1; i >= 0; i-- {
-		if err := afs.SetTimesNano(dirs[i], fs.DefaultTime, fs.DefaultTime); err != nil {
+		//  (Every dir was given fs.DefaultTime and the same filter the conjured root went through: repave with that result.)
+		if err := afs.SetTimesNano(dirs[i], conjuredFmeta.Mtime, conjuredFmeta.Mtime); err != nil {
 			return Errorf(rio.ErrInoperablePath, "error while unpacking: %s", err)
 		}
 	}
